@@ -53,7 +53,7 @@ def subset(wires, k):
 def gate(wires, pool=None, ang=None):
     """One gate spec from `pool` (dict name -> (n_params, n_wires)) on a random subset of `wires`."""
     pool = pool or ALL_GATES
-    ang = ang or angles()
+    ang = angles() if ang is None else ang
     names = sorted(n for n, (_, k) in pool.items() if k <= len(wires))
 
     def mk(name):
@@ -66,7 +66,7 @@ def gate(wires, pool=None, ang=None):
 
 def extra_gate(wires, ang=None):
     """Gates with non-uniform signatures."""
-    ang = ang or angles()
+    ang = angles() if ang is None else ang
     n = len(wires)
     opts = [st.tuples(ang, subset(wires, 1)).map(lambda t: {"op": "GlobalPhase", "p": [t[0]], "w": t[1]})]
     if n >= 1:
@@ -84,7 +84,7 @@ def extra_gate(wires, ang=None):
 
 def derive(prev, wires, ang=None):
     """An op derived from `prev`: its adjoint, same class with a new angle, same op again, wires permuted."""
-    ang = ang or angles()
+    ang = angles() if ang is None else ang
     opts = [st.just({"op": "adjoint", "base": prev}), st.just(prev)]
     if prev.get("p") and all(isinstance(x, (int, float)) for x in prev["p"]):
         n = len(prev["p"])
